@@ -593,6 +593,20 @@ def rule_EO(run: Run) -> RuleResult:
     for nm, cname, wrap_plain, target in (("apply", "Apply", True, "Apply(self, self.ensure(func))"), ("bind", "Bind", False, "Bind(self, func)"), ("__rshift__", "Apply", True, "self.apply(other)")):
         ok, why, ln_ = built(nm, cname, wrap_plain)
         res.add(f"labrea.types.Evaluatable.{nm}:builds {target}", ok, en.module.relpath, ln_, why, nec)
+    # the combinator API (calling, >>, apply, bind, ensure, fingerprint) is defined once, on the ABCs: an override in a
+    # concrete expression class would have to re-establish everything checked above (issue the evaluate request, keep
+    # the source lazily under the function) — none does today, so an override is reported
+    for c_ in run.node_classes():
+        for nm in ("__call__", "apply", "bind", "__rshift__", "ensure", "fingerprint"):
+            r_ = c_.find_method(nm)
+            if r_ is None:
+                continue
+            owner_ = r_[0]
+            ok = owner_.name in ("Evaluatable", "Cacheable") or (nm == "__call__" and any("type" in k_.external_bases() for k_ in c_.mro()))
+            if not ok:
+                res.add(f"{c_.qualname}.{nm}:combinator API inherited from the ABC", False, owner_.module.relpath, r_[1].lineno,
+                        f"{owner_.name}.{nm} overrides the ABC's {nm}: evaluation through it no longer issues the request / nests the source under the function as the ABC does", nec)
+    res.add("labrea.types.Evaluatable:combinator API defined once", True, en.module.relpath, en.node.lineno, "__call__/apply/bind/>>/ensure/fingerprint live on the ABCs only", nec)
     ens, eps = mpaths("ensure")
     if ens is not None:
         arg = [x.arg for x in ens.args.args][0]
